@@ -280,10 +280,20 @@ def parse_playback(text):
     out = []
     for m in PLAYBACK_RE.finditer(text):
         src = m.group(2)
-        mk = re.search(r"/// Check for `(\w+)`: \"(.*)\"", src)
+        mk = re.search(r"/// Check for `(\w+)`: \"(.*?)\"\s*\n\s*(?:#\[test\]|\n)", src, re.S)
+        if not mk:
+            mk = re.search(r"/// Check for `(\w+)`: \"(.*)", src)
         mn = re.search(r"fn (kani_concrete_playback_\w+)\(", src)
+        # Kani copies the failed check's message into a `///` header; a message that spans several lines (an
+        # assert! without a message whose condition is wrapped) continues WITHOUT the `///` prefix and would not
+        # compile -- and, being included in the scratch crate, would break every later native replay of the run.
+        # Everything before `#[test]` is turned into plain `//` comments.
+        cut = src.find("#[test]")
+        if cut > 0:
+            head = "".join("// " + l.lstrip("/ ").rstrip() + "\n" for l in src[:cut].splitlines() if l.strip())
+            src = head + src[cut:]
         if mn:
-            out.append((mk.group(1) if mk else "", mk.group(2).strip('"') if mk else "", mn.group(1), src))
+            out.append((mk.group(1) if mk else "", " ".join(mk.group(2).split()).strip('"') if mk else "", mn.group(1), src))
     return out
 
 
